@@ -112,7 +112,8 @@ def transform_checks(chk, rng, c, found):
         if base[0] != "ok":
             report(chk, found, c, dt, f"{name} raised {base[1]} on a finite matrix", {"observed": base[:2]})
             continue
-        sc = max(float(A.maxabs(J)) * m, 1e-300)
+        sel = name in ("Krum", "TrimmedMean", "Mean", "Sum", "Constant")
+        sc = max(float(A.maxabs(J)) * (1 if sel else m), max(abs(x) for x in base[1]) if sel else 0.0, 1e-300)
         st = stable(name, p, J, call(name, p, J, "f64"))
         if name == "MGDA" and A.mgda_has_tie(J, p["epsilon"], p["max_iters"]):
             st = False
